@@ -29,6 +29,11 @@ func c10ID(name string) uint64 {
 			return uint64(i)
 		}
 	}
+	for i, n := range c10MoreNames { // sources 5.. of the deepening streams (verif_c10_deep_test.go)
+		if n == name {
+			return uint64(len(c10Names) + i)
+		}
+	}
 	panic("c10: unknown source name " + name)
 }
 
@@ -151,6 +156,7 @@ type c10Replica struct {
 	clock *sgbucket.HybridLogicalClock
 	phys  uint64
 	seen  map[Version]bool
+	recd  map[Version]bool // the versions the vector still records (ReplicaAll.v rec_step), see verif_c10_deep_test.go
 }
 
 func (r *c10Replica) newClock() {
@@ -286,7 +292,7 @@ func c10RunHistory(rec *vRecorder, ctx context.Context, stream string, evs []c10
 	run := &c10Run{rec: rec, ctx: ctx, evs: evs}
 	reps := map[int]*c10Replica{}
 	for i := 1; i <= 3; i++ {
-		r := &c10Replica{name: c10Names[i], id: uint64(i), seen: map[Version]bool{}}
+		r := &c10Replica{name: c10Names[i], id: uint64(i), seen: map[Version]bool{}, recd: map[Version]bool{}}
 		r.newClock()
 		reps[i] = r
 	}
@@ -314,11 +320,13 @@ func c10RunHistory(rec *vRecorder, ctx context.Context, stream string, evs []c10
 				if !run.tainted {
 					rec.Fail("local_versions_increase", "edit-rejected", map[string]any{"history": evs[:idx+1]}, "AddVersion rejected the locally generated version: "+err.Error())
 				}
+				run.recRejected("edit", idx, err)
 			} else {
 				outcome = "(OEdited " + cqN(v) + ")"
 				run.checkNew(idx, reps, rep, v)
 				rep.seen[Version{SourceID: rep.name, Value: v}] = true
 				run.reprMonitors("edit", idx, rep, before, nil)
+				run.recStep("edit", idx, rep, before, nil, v)
 			}
 		case "pull":
 			inc := reps[e.Q]
@@ -334,6 +342,7 @@ func c10RunHistory(rec *vRecorder, ctx context.Context, stream string, evs []c10
 				}
 				outcome = "OCopied"
 				run.reprMonitors("copy", idx, rep, nil, inc.hlv)
+				run.recStep("copy", idx, rep, nil, inc, 0)
 				break
 			}
 			before := rep.hlv.Copy()
@@ -362,6 +371,7 @@ func c10RunHistory(rec *vRecorder, ctx context.Context, stream string, evs []c10
 						fmt.Sprintf("IsInConflict returned %d, the version vectors say %d (1 no conflict, 2 conflict, 3 already present)", status, want))
 				}
 			}
+			run.recVerdict(idx, rep, inc, status, sameMerge)
 			switch status {
 			case HLVNoConflictRevAlreadyPresent:
 				outcome = "OKnown"
@@ -375,11 +385,13 @@ func c10RunHistory(rec *vRecorder, ctx context.Context, stream string, evs []c10
 					outcome = "OFastForward"
 					run.ffs++
 					run.reprMonitors("fast-forward", idx, rep, before, inc.hlv)
+					run.recStep("fast-forward", idx, rep, before, inc, 0)
 				} else {
 					outcome = "OSameMerge"
 					run.same++
 					run.knownHit = false
 					run.reprMonitors("same-merge", idx, rep, before, inc.hlv)
+					run.recStep("same-merge", idx, rep, before, inc, 0)
 					if run.knownHit {
 						// known finding: the replica's vector no longer represents what it has seen
 						run.tainted = true
@@ -399,6 +411,7 @@ func c10RunHistory(rec *vRecorder, ctx context.Context, stream string, evs []c10
 					if !run.tainted {
 						rec.Fail("local_versions_increase", "merge-rejected", map[string]any{"history": evs[:idx+1]}, "MergeWithIncomingHLV rejected the generated version: "+err.Error())
 					}
+					run.recRejected("merge", idx, err)
 				} else {
 					outcome = "(OMerged " + cqN(v) + ")"
 					run.merges++
@@ -409,6 +422,7 @@ func c10RunHistory(rec *vRecorder, ctx context.Context, stream string, evs []c10
 					}
 					rep.seen[Version{SourceID: rep.name, Value: v}] = true
 					run.reprMonitors("merge", idx, rep, before, inc.hlv)
+					run.recStep("merge", idx, rep, before, inc, v)
 				}
 			}
 		case "restart":
@@ -854,6 +868,9 @@ func TestVerifC10(t *testing.T) {
 
 	// ================= (D) versions generated by the gateway itself (documentUpdateFunc / updateHLV) =================
 	c10Gateway(t, rec, rnd)
+
+	// ================= (E) deepening round: general update lemma, Compact, stored bytes, legacy ids =================
+	c10Deep(t, rec, rnd, ctx, wfSmall)
 	rec.Extra("exhaustive", true)
 }
 
